@@ -78,31 +78,40 @@ class Spec:
     """The property statement, per registration, as a function of the history (no table)."""
 
     def __init__(self):
-        self.life = {}      # key -> [age_ns, used, validated]
+        self.life = {}      # key -> [age_ns, used, validated, times seen]
 
     def apply(self, o):
+        """returns what the operation must cause besides: (announcements, lifetime updates, validated registrations expired)"""
         op = o["op"]
+        new, upd, expv = [], [], 0
         if op in ("track", "tracknx", "validate", "validate_stale"):
             k = (o["s"], o["t"], o["p"])
             if o["t"] < 4:                       # transport enabled at the station
                 fresh = k not in self.life
                 if fresh:
-                    self.life[k] = [0, False, False]
+                    self.life[k] = [0, False, False, 1]
+                elif op in ("track", "tracknx"):
+                    self.life[k][3] += 1         # a duplicate is counted, nothing else
                 # AddRegistration validates the caller's own object only: the tracked one, or a new one
                 if op == "validate" or (op == "validate_stale" and fresh):
+                    if not self.life[k][2]:
+                        new.append(k)            # announced to the detector once per life
                     self.life[k][2] = True
         elif op == "active":
             k = (o["s"], o["t"], o["p"])
             if k in self.life:
                 self.life[k][1] = True
+                upd.append(k)
         elif op == "advance":
             for v in self.life.values():
                 v[0] += adv_ns(o)
         elif op == "sweep":
             for k in list(self.life):
-                a, u, _ = self.life[k]
+                a, u, val, _ = self.life[k]
                 if not (a <= TEN_MIN or (u and a <= SIX_H)):
+                    expv += 1 if val else 0
                     del self.life[k]
+        return new, upd, expv
 
     def tracked(self):
         return set(self.life)
@@ -138,11 +147,11 @@ def oracle(ctx, case, res):
     clean = True
     for i, (o, ob) in enumerate(zip(case["ops"], res["obs"])):
         if o["op"] == "sweep":
-            for a, u, _ in spec.life.values():
+            for a, u, _, _ in spec.life.values():
                 if a == (SIX_H if u else TEN_MIN):
                     kd = "boundary/sweep-at-limit-%s" % ("used" if u else "unused")
                     ctx.cov["histogram"][kd] = ctx.cov["histogram"].get(kd, 0) + 1
-        spec.apply(o)
+        new, upd, expv = spec.apply(o)
         if ob["panic"]:
             ctx.fail("panic:%s" % o["op"], "operation %s panicked on the real table: %s" % (o["op"], ob["panic"][:200]),
                      {"case": case, "at": i})
@@ -177,6 +186,24 @@ def oracle(ctx, case, res):
                      "a lookup on phantom %d does not return the live, validated registration (secret %d, transport %s) after "
                      "operation #%d (%s)" % (k[2], k[0], TRS[k[1]], i, o["op"]),
                      {"case": case, "at": i, "key": k, "observed_matched": sorted(gotm), "expected_matched": sorted(wantm)})
+            clean = False
+        # further observables: regCount, detector notifications, expiry statistics
+        for t in ob["tracked"]:
+            k = tuple(t[:3])
+            if k in spec.life and t[4] != spec.life[k][3]:
+                ctx.fail("regcount-wrong:%s" % o["op"], "registration (secret %d, transport %s, phantom %d) has regCount %d after operation "
+                         "#%d (%s); it was seen %d times in its current life" % (k[0], TRS[k[1]], k[2], t[4], i, o["op"], spec.life[k][3]),
+                         {"case": case, "at": i, "key": k})
+                clean = False
+        if [tuple(x) for x in ob["new_notif"]] != new or [tuple(x) for x in ob["upd_notif"]] != upd:
+            which = "new" if [tuple(x) for x in ob["new_notif"]] != new else "update"
+            ctx.fail("notification-wrong:%s/%s" % (which, o["op"]),
+                     "operation #%d (%s) sent detector notifications new=%s update=%s; the history prescribes new=%s update=%s"
+                     % (i, o["op"], ob["new_notif"], ob["upd_notif"], new, upd), {"case": case, "at": i})
+            clean = False
+        if ob["exp_valid"] != expv or ob["stat_delta"] != expv:
+            ctx.fail("expiry-stat-wrong", "operation #%d (%s) lowered the active-registration gauges by %d (manager) / %d (Stat()); %d "
+                     "validated registrations expired" % (i, o["op"], ob["exp_valid"], ob["stat_delta"], expv), {"case": case, "at": i})
             clean = False
         if ob["unknown_id"]:
             ctx.fail("matched-unknown-identifier", "a lookup returned an identifier that belongs to no registration of the history",
@@ -336,7 +363,7 @@ def random_case(rng, nops, big, exact=False):
             ns = 0
             if live and rng.random() < 0.6:        # bring one live registration to (just around) its limit
                 k = rng.choice(live)
-                a, u, _ = spec.life[k]
+                a, u, _, _ = spec.life[k]
                 tgt = (SIX_H if u else TEN_MIN) + rng.choice([-NS, 0, 0, NS, NS, 60 * NS] if not exact else [-1, 0, 0, 1, -NS, NS])
                 if tgt > a:
                     d, ns = divmod(tgt - a, NS)
@@ -435,11 +462,12 @@ def gop(o):
 
 
 def gobs(ob):
-    return "(O %s %s %s %s %s %s %s %s)" % (
+    return "(O %s %s %s %s %s %s %s %s %s %s %s %s)" % (
         gbool(ob["err"]), gN(ob["ret"]),
-        glist(ob["tracked"], lambda t: "(%s, %s)" % (gkey(t), gbool(t[3] == 1))),
+        glist(ob["tracked"], lambda t: "(%s, (%s, %s))" % (gkey(t), gbool(t[3] == 1), gN(t[4]))),
         glist(ob["matched"], gkey), glist(ob["counts"], gN),
-        gN(ob["total"]), gN(ob["ntimeouts"]), gN(ob["nphantoms"]))
+        gN(ob["total"]), gN(ob["ntimeouts"]), gN(ob["nphantoms"]),
+        glist(ob["new_notif"], gkey), glist(ob["upd_notif"], gkey), gN(max(ob["exp_valid"], 0)), gN(max(ob["stat_delta"], 0)))
 
 
 def gcase(case, res):
@@ -468,6 +496,193 @@ def wiring(ctx):
     if not re.search(r"\.MarkActive\(", src):
         ctx.broken("wiring", "cmd/application never calls RegistrationManager.MarkActive: a connection would not mark "
                    "its registration used")
+
+
+# ----------------------------------------------------------------------------- shrinking
+class Rec:
+    """stands in for ctx when a candidate history is only judged, not reported"""
+
+    def __init__(self):
+        self.keys = []
+        self.cov = {"histogram": {}}
+
+    def fail(self, key, what, case):
+        self.keys.append(key)
+
+
+def shrink(ctx, case, key, mode, max_rounds=30):
+    """delta debugging over the operation list: drop chunks (halves, quarters, ... single operations) as long as the real
+    table still fails in the same way (same kind of failure; the relation class in the key may narrow as unrelated
+    registrations disappear); every round is one run of the Go driver on all candidates"""
+    kind = key.split(":")[0]
+    ops = list(case["ops"])
+    n, rounds = 2, 0
+    while len(ops) >= 2 and rounds < max_rounds:
+        rounds += 1
+        chunk = max(1, len(ops) // n)
+        cands = [ops[:i] + ops[i + chunk:] for i in range(0, len(ops), chunk)]
+        cands = [c for c in cands if c]
+        cs = [{"ops": c, "keys": case["keys"], "phantoms": case["phantoms"]} for c in cands]
+        rc, out, res = go_run(ctx, ".", GO_PKG, GO_FILES, "^TestVerifC08Registry$", cs, mode, 300)
+        if res is None or len(res) != len(cs):
+            break
+        hit = None
+        for c, r in zip(cs, res):
+            if r["slow"]:
+                continue
+            rec = Rec()
+            oracle(rec, c, r)
+            if any(k2.split(":")[0] == kind for k2 in rec.keys):
+                hit = c
+                break
+        if hit is not None:
+            ops = hit["ops"]
+            n = max(n - 1, 2)
+        elif chunk == 1:
+            break
+        else:
+            n = min(len(ops), n * 2)
+    return {"ops": ops, "keys": case["keys"], "phantoms": case["phantoms"]}, rounds
+
+
+def shrink_failures(ctx, mode, limit=2):
+    done = 0
+    for f in ctx.failures:
+        c = f.get("case") or {}
+        if done >= limit or not isinstance(c, dict) or "case" not in c or len(c["case"].get("ops", [])) <= 4:
+            continue
+        small, rounds = shrink(ctx, c["case"], f["key"], mode)
+        if len(small["ops"]) < len(c["case"]["ops"]):
+            f["case"] = {"case": small, "shrunk_from_ops": len(c["case"]["ops"]), "shrink_rounds": rounds,
+                         "key": c.get("key")}
+            f["what"] += " [history shrunk from %d to %d operations; the operation index refers to the original]" % (
+                f["case"]["shrunk_from_ops"], len(small["ops"]))
+        done += 1
+
+
+# ----------------------------------------------------------------------------- the real sweeper loop of main.go
+SW_FILES = {"zz_verif_driver_test.go": "c08/sweeper_driver_test.go",
+            "zz_verif_clock_fake_test.go": "c08/clock_fake_main_test.go",
+            "zz_verif_clock_real_test.go": "c08/clock_real_main_test.go"}
+MIN = 60 * NS
+
+
+def cut_sweeper(ctx):
+    """brace-match the `go func(...) {...}(...)` statement of main() that calls RemoveOldRegistrations and wrap it,
+    verbatim, into a function of (ctx, wg, regManager)"""
+    src = open(os.path.join(REPO, "cmd/application/main.go")).read()
+    at = src.find(".RemoveOldRegistrations()")
+    if at < 0:
+        return None, "main.go does not call RemoveOldRegistrations()"
+    i = src.rfind("go func(", 0, at)
+    if i < 0:
+        return None, "the call of RemoveOldRegistrations() is not inside a `go func(...)` statement"
+    k = src.index("{", i)
+    depth = 0
+    while k < len(src):
+        if src[k] == "{":
+            depth += 1
+        elif src[k] == "}":
+            depth -= 1
+            if depth == 0:
+                break
+        k += 1
+    if not (k < len(src) and k > at and src[k + 1:k + 2] == "("):
+        return None, "could not delimit the goroutine that calls RemoveOldRegistrations()"
+    end = src.index(")", k) + 1
+    stmt = src[i:end]
+    text = ("package main\n\n// GENERATED on every run by /verif/driver/props/c08.py: the sweeper goroutine of main(), verbatim.\n"
+            "import (\n\t\"context\"\n\t\"sync\"\n\t\"time\"\n\n\tcj \"github.com/refraction-networking/conjure/pkg/station/lib\"\n)\n\n"
+            "var _ = time.Second\n\n"
+            "func verifC08StartSweeper(ctx context.Context, wg *sync.WaitGroup, regManager *cj.RegistrationManager) {\n\twg.Add(1)\n\t"
+            + stmt + "\n}\n")
+    path = os.path.join(lib.BUILD, "c08_sweepercut_%d.go" % os.getpid())
+    with open(path, "w") as f:
+        f.write(text)
+    return path, stmt
+
+
+def sweeper_scripts(ctx):
+    """clock scripts: every minute boundary and the nanosecond before it for 40 min, a new registration every minute
+    (also exactly at tick instants); a cancelled run"""
+    s1 = [{"to": 0, "track": 2, "cancel": False}]
+    for m in range(1, 41):
+        s1.append({"to": m * MIN - 1, "track": 0, "cancel": False})
+        s1.append({"to": m * MIN, "track": 1 if m <= 25 else 0, "cancel": False})
+    s2 = [{"to": 0, "track": 1, "cancel": False}, {"to": 5 * MIN, "track": 1, "cancel": False},
+          {"to": 7 * MIN, "track": 0, "cancel": True}]
+    for m in range(8, 30):
+        s2.append({"to": m * MIN, "track": 0, "cancel": False})
+    rng = ctx.rng
+    s3, t = [{"to": 0, "track": 1, "cancel": False}], 0
+    for _ in range(60):
+        t += rng.choice([1, NS, 17 * NS, MIN - 1, MIN, MIN + 1, 3 * MIN - 1, 2 * MIN])
+        s3.append({"to": t, "track": rng.choice([0, 0, 1, 2]), "cancel": False})
+    return [s1, s2, s3]
+
+
+def run_sweeper(ctx):
+    """main.go's own ticker loop, executed on the fake clock, judged by the same per-registration specification with a
+    sweep at every multiple of 3 minutes"""
+    if ctx.replay is not None:
+        return
+    path, stmt = cut_sweeper(ctx)
+    if path is None:
+        ctx.broken("main-cut", "the sweeper goroutine of cmd/application/main.go could not be located: %s" % stmt)
+        return
+    scripts = sweeper_scripts(ctx)
+    old = os.environ.get("PHANTOM_SUBNET_LOCATION")
+    os.environ["PHANTOM_SUBNET_LOCATION"] = os.path.join(REPO, "pkg/station/lib/test/phantom_subnets.toml")
+    try:
+        rc, out, res = go_run(ctx, "cmd/application", ".", SW_FILES, "^TestVerifC08Sweeper$", scripts, "fake", 600,
+                              extra_files={"zz_verif_sweepercut.go": path})
+    finally:
+        if old is None:
+            os.environ.pop("PHANTOM_SUBNET_LOCATION", None)
+        else:
+            os.environ["PHANTOM_SUBNET_LOCATION"] = old
+        if os.path.exists(path) and os.environ.get("VERIF_KEEP") != "1":
+            os.remove(path)
+    if res is None or len(res) != len(scripts):
+        if "faketime" in out and "not in effect" in out or "checklinkname" in out:
+            ctx.cov["sweeper_loop"] = "not executed (no fake clock): " + out[-200:]
+            return
+        ctx.broken("main-cut", "the sweeper goroutine cut out of main.go did not compile/run as a function of (ctx, wg, regManager): %s"
+                   % out[-900:])
+        return
+    PERIOD = 3 * MIN
+    for script, r in zip(scripts, res):
+        ctx.count(("sweeper", repr(script)), kind="mainloop/sweeper")
+        if r["panic"] or len(r["obs"]) != len(script):
+            ctx.fail("sweeper:panic", "main.go's sweeper loop panicked or stopped early: %s" % r["panic"][:300], {"script": script})
+            continue
+        spec, nreg, now, cancelled_at = Spec(), 0, 0, None
+        for i, (st, ob) in enumerate(zip(script, r["obs"])):
+            # a tick instant in (now, to]: the loop runs its sweep as soon as it is scheduled, i.e. at clock `to`
+            # (the scripts never jump over two ticks)
+            ticked = st["to"] // PERIOD > now // PERIOD
+            spec.apply({"op": "advance", "d": 0, "ns": st["to"] - now})
+            now = st["to"]
+            if ticked and cancelled_at is None:
+                spec.apply({"op": "sweep"})
+            for _ in range(st["track"]):
+                spec.apply({"op": "track", "s": nreg, "t": 0, "p": 0})
+                nreg += 1
+            if st["cancel"]:
+                cancelled_at = now
+            want = sorted(k[0] for k in spec.tracked())
+            if ob["present"] != want:
+                late = set(ob["present"]) - set(want)
+                ctx.fail("sweeper:%s" % ("not-swept-on-schedule" if late else "swept-early"),
+                         "main.go's sweeper loop: %d ns after start the manager tracks registrations %s; with a sweep every 3 minutes "
+                         "(none after the stop request) it must track %s" % (now, ob["present"], want),
+                         {"script": script, "step": i, "cancelled_at": cancelled_at})
+                break
+            if cancelled_at is not None and not ob["stopped"]:
+                ctx.fail("sweeper:not-stopped", "main.go's sweeper goroutine has not returned after its context was cancelled",
+                         {"script": script, "step": i})
+                break
+    ctx.cov["sweeper_loop"] = "executed: `%s...` cut from main.go, %d clock scripts" % (stmt[:40].replace("\n", " "), len(scripts))
 
 
 # ----------------------------------------------------------------------------- run
@@ -499,6 +714,7 @@ def run(ctx):
     if rc != 0:
         ctx.broken("examples", "non-vacuity examples / legacy witness no longer check: " + out[-600:])
     wiring(ctx)
+    run_sweeper(ctx)
     cases, n_fixed, n_exh = gen_cases(ctx)
     # primary run: the runtime's fake clock, moved by the driver - every age is exact to the nanosecond
     rc, out, res = go_run(ctx, ".", GO_PKG, GO_FILES, "^TestVerifC08Registry$", cases, "fake", 900)
@@ -555,6 +771,8 @@ def run(ctx):
         oracle(ctx, case, r)
         terms.append(gcase(case, r))
         kept_cases.append((case, r))
+    if ctx.failures and ctx.replay is None:
+        shrink_failures(ctx, "fake" if fake_ok else "shift")
     if ctx.cov["histogram"].get("skipped/slow", 0) > len(cases) // 10:
         ctx.broken("driver", "more than 10% of the cases could not be run within the timing slack")
     for i in (0, n_fixed + 5, len(cases) - 1):
